@@ -8,7 +8,7 @@ META = {
              'sample in the quick tier, all k in the thorough tier); (ii) storage operations through a '
              'LocalStorage subclass: open of metadata/data fails before or after the file exists, j-th write() of '
              'either file fails (all j), flush fails, close fails; (iii) an object whose pickling raises TypeError or SystemExit (a failure that is not an Exception) / a non-JSON-able object, at depth '
-             '0/2/5 of a small or ~300 KiB result; x cache format {pickle, json} x {first save, overwrite of an '
+             '0/2/5 of a small or ~300 KiB result; x cache format {pickle, json, pickle with a task type whose post_init rewrites a parameter} x {first save, overwrite of an '
              'existing entry via bust_cache} x result shape {small, nested, big} x victim {serial caller, fork '
              'worker}. Oracle on the post-state (same process and a fresh Lab): the victim is absent from the '
              'returned dict; if is_cached or cached_tasks report it, run_tasks must load it and return the old or '
@@ -28,7 +28,7 @@ SHAPES = ['small', 'nested', 'big']
 def base_spec(cache_type):
     return {'shape': 'c12', 'tasks': {
         'b': {'type': 'NA', 'one': None, 'many': [], 'named': None, 'p': 1},
-        'v': {'type': cache_type, 'one': None, 'many': [], 'named': None, 'p': 2}},
+        'v': {'type': cache_type, 'one': None, 'many': [], 'named': None, 'p': (' Mixed Case ' if cache_type == 'NSP' else 2)}},
         'requested': ['v', 'b']}
 
 
@@ -55,7 +55,8 @@ def run_case(case, rep=None, count_only=False):
 
         def val(name, gen):
             t = spec['tasks'][name]
-            return combine(t['type'], name, t['p'], [], ctx_digest({}), gen)
+            pv = t['p'].strip().lower() if (t['type'] == 'NSP' and isinstance(t['p'], str)) else t['p']
+            return combine(t['type'], name, pv, [], ctx_digest({}), gen)
         v0 = None
         if case['mode'] == 'overwrite':
             engine.write_plan(ctl, 0, {'v': {'shape': 'small'}})
@@ -194,9 +195,9 @@ def fs_signature(store, key):
 def enumerate_cases(rep, stride_fork):
     """All fault points; the count pass runs per configuration."""
     cases = []
-    for cache in ('NS', 'NSJ'):
+    for cache in ('NS', 'NSJ', 'NSP'):
         for mode in ('first', 'overwrite'):
-            for shape in SHAPES:
+            for shape in (SHAPES if cache != 'NSP' else ['small']):
                 if cache == 'NSJ' and shape == 'big':
                     continue
                 for backend in ('serial', 'fork'):
